@@ -133,6 +133,8 @@ outer:
 	p.emit(EOF{})
 	close(p.sequences)
 	p.closed <- true
+	// every later WaitClose returns at once
+	close(p.closed)
 }
 
 func (p *Parser) Close() {
